@@ -182,6 +182,35 @@ def run(tier):
                 if nv <= 4:
                     ctx.violation({"layer": "sched", "cases": [case], "implementation_answer": io2[k][:2000], "model_answer": mo[k][:2000], "why": msg})
                 break
+    # detection bound, statistically: a family of depth-d bugs in a two-task program (main: spawn T1; load; [load;] join —
+    # T1: m increments).  "the load returns v" with 0 < v < m needs T1 ahead of main and a change point exactly after
+    # T1's v-th increment: depth 2; v = 0 and v = m are depth 1.  At parameter d the hit frequency of a depth-d bug must be
+    # at least 1/(n*k^(d-1)); the check alarms below half of that, with N chosen so that the expected count is >= 200
+    # (false-alarm probability below e^-25 by the Chernoff bound).
+    m = 6
+    body = "sp1;a0.ld;jn0|" + ";".join(["a0.add.1"] * m)
+    pats = "+".join("O0:7:1,%d@" % v for v in range(m + 1))
+    stats = []
+    for d, N, vs in [(1, 2000, [0, m]), (2, 8000 if tier == "quick" else 40000, list(range(1, m)))]:
+        seed = rng.getrandbits(48)
+        case = "hits pct %d %d %d a0 %s %s" % (seed, d, N, body, pats)
+        o = ctx.run_impl("prog", [case])[0]
+        ctx.evaluations += 1
+        if not o.startswith("HITS"):
+            ctx.violation({"layer": "prog", "cases": [case], "implementation_answer": o[:300], "why": "PCT run failed"})
+            continue
+        f = dict(x.split("=") for x in o.split(" ")[1:])
+        n_it, k = int(f["N"]), int(f["K"])
+        hits = [int(x) for x in f["H"].split(",")]
+        if n_it != N:
+            ctx.violation({"layer": "prog", "cases": [case], "implementation_answer": o, "why": "PCT ran %d executions for a budget of %d" % (n_it, N)})
+        bound = 1.0 / (2 * k ** (d - 1))
+        for v in vs:
+            stats.append((d, v, hits[v], N, k))
+            if hits[v] < 0.5 * bound * N:
+                ctx.violation({"layer": "prog", "cases": [case], "implementation_answer": o,
+                               "why": "depth-%d bug 'load returns %d' hit %d times in %d iterations at depth %d with n=2, k=%d: below half of the guaranteed 1/(n*k^(d-1)) = %.4f" % (d, v, hits[v], N, d, k, bound)})
+    ctx.cov["detection_statistics"] = [{"depth": d, "v": v, "hits": h, "iterations": N, "k": k} for d, v, h, N, k in stats]
     ctx.dist("sessions.protocol", sum(1 for x in sessions if not x[4]))
     ctx.dist("sessions.wild", sum(1 for x in sessions if x[4]))
     ctx.dist("answers.panic", sum(1 for o in io2 if "P" in o.split(",")))
